@@ -73,7 +73,7 @@ THEOREMS = {
     "C20_model_is_source_correlation_matrix": "the translation of the WHOLE function models/main.py correlation_matrix, regenerated from /repo on this run (Generated/SrcCorr.v), equals the model correlation_matrix wrapped as the DataFrame (index, columns, values) with the sample names on both axes, for all screens and thetas: dict(zip(sample_ids, sample_names)), the loop over unique_sample_ids in increasing order (the TRANSLATED generate_full_combinatoric_space per sample, the TRANSLATED predict_viability_avg on that space, both appends, the name read from the dict), np.stack (ValueError without samples), np.mean(axis=0, keepdims) = the across-sample mean per combination, X = predictions - mu, np.sqrt(np.sum(np.square(X), axis=1, keepdims)) through the sqrt oracle, X / norm with 0 / 0 = NaN for a whole row, np.einsum('ik, jk->ij') of the normalised rows.  Hypotheses: the oracle's sqrt vanishes exactly at 0 on non-negative arguments (true of the real and the IEEE square root), key injective on the mapping's (name, dose) pairs",
     "C20_source_corr_symmetric": "hence, for the TRANSLATED correlation_matrix: the DataFrame's columns are its index and its values are symmetric (C20_corr_symmetric composed with the link)",
     "C20_model_is_source_cli_analyze": "the translation of the WHOLE function cli/analyze_model_evaluation.main (Generated/SrcCliAnalyze.v), for every record of library functions and all parsed arguments, equals the model CliAnalyze.cli_analyze: the run as the ordered list of its effects on the output directory",
-    "C20_source_report_contents": "a run of the translated main() whose loads succeed creates the directory, plots the similarity matrix computed on the loaded --screen and the concatenation of ALL --thetas files in argument order, draws the four evaluation plots (99th percentile for the last) from the loaded --model-evaluation, and writes {mse: me.mse(), mse_variance: me.mse_variance(), inter_chain_mse_variance: me.inter_chain_mse_variance()} of that evaluation",
+    "C20_source_report_contents": "a run of the translated main() whose loads succeed creates the directory, plots the similarity matrix computed on the loaded --screen and the concatenation of ALL --thetas files in argument order, draws the four evaluation plots (the two regplot-drawing ones with seed=--seed, 99th percentile for the last) from the loaded --model-evaluation, and writes {mse: me.mse(), mse_variance: me.mse_variance(), inter_chain_mse_variance: me.inter_chain_mse_variance()} of that evaluation",
     "C20_source_reported_summary_def": "the REPORTED numbers are the definitions: with the translated ModelEvaluation.mse / mse_variance / inter_chain_mse_variance as the library's methods, any summary the translated main() writes for a constructed evaluation holds the mean squared error over all (experiment, sample) pairs, its variance across experiments, and the variance of the per-chain MSEs (NaN without experiments or samples)",
     "C20_source_eval_save_load": "hence C20_eval_save_load holds of the translated source: for every evaluation the constructor builds (m = predictions.shape[1]; zero experiments, zero thetas, square matrices included) the translated load_h5 applied to what the translated save_h5 wrote returns the evaluation unchanged",
 }
@@ -92,7 +92,7 @@ EXPLANATION = ("Model: Model/Metrics.v, Model/Synergy.v, Model/Corr.v; definitio
                "sample's average predictions equal the across-sample mean only up to rounding, the implementation returns normalised rounding "
                "noise instead of NaN (such entries, 0/0 over the reals, are not compared; feature fp-noise-where-undefined). "
                "Not modelled: the CLI wrappers other than analyze_model_evaluation.main, predict_* other than predict_viability_avg. "
-               "The reporting site analyze_model_evaluation.main is modelled (Model/CliAnalyze.v: a run = the ordered list of its effects: mkdir, five plots, "
+               "The reporting site analyze_model_evaluation.main is modelled (Model/CliAnalyze.v: a run = the ordered list of its effects: mkdir, five plots - the two scatter plots with the seed= keyword main() gives them -, "
                "the JSON summary) and linked (CLI_ANALYZE -> Generated/SrcCliAnalyze.v, Proofs/C20SourceCli_Analyze.v).  Trusted there, one call each: "
                "get_args() = the record of parsed arguments; ThetaHolder(n_thetas=1) only reaches load_h5 / concat; ThetaHolder.load_h5 / concat, "
                "Screen.load_h5, ModelEvaluation.load_h5, correlation_matrix and the three metric methods = the components of the library record "
@@ -1207,6 +1207,12 @@ PLOTS = [("plot_correlation_heatmap", "sample_prediction_correlation.pdf", None)
          ("per_sample_violin_plot", "per_sample_violin_plot__99th_percentiles.pdf", 99)]
 
 
+def _default_seed(ame):
+    """what args.seed holds when --seed is not given (C18_source_parser_analyze_model_evaluation_seed: a non-negative int literal)"""
+    v = ame.get_parser().get_default("seed")
+    return v if isinstance(v, int) and not isinstance(v, bool) else 0
+
+
 def _run_report(desc):
     import contextlib
     import inspect
@@ -1232,7 +1238,8 @@ def _run_report(desc):
         base.append(nxt)
         nxt += nth
     wire = [8, m, [[frac(x) for x in r] for r in preds], [frac(x) for x in obs], chains, [s2l(x) for x in names],
-            [[base[c] + j for j in range(desc["theta_chains"][c])] for c in order]]
+            [[base[c] + j for j in range(desc["theta_chains"][c])] for c in order],
+            desc["seed_arg"] if desc.get("seed_arg") is not None else _default_seed(ame)]       # the parsed --seed
     d = _tmpdir()
     rec = dict(corr_calls=[], plots=[])
     try:
@@ -1313,8 +1320,8 @@ def _run_report(desc):
                     except Exception:       # noqa: BLE001
                         nums = [-1]
                     events.append([1, code, nums])
-                elif nm_ in tags:
-                    events.append([tags[nm_], code])
+                elif nm_ in tags:       # the regplot-drawing plots: with the seed= keyword main() gave them (absent = [])
+                    events.append([tags[nm_], code, [kw_["seed"]] if "seed" in kw_ else []])
                 else:
                     events.append([4, code, [kw_["percentile"]] if "percentile" in kw_ else []])
             events.append([5, 5] + impl)
